@@ -233,7 +233,7 @@ func runC18(w *W) {
 	nRand := 2000000
 	if th {
 		nInt = 3000000
-		nRand = 150000000
+		nRand = 300000000
 	}
 	for i := 0; i < nInt; i++ {
 		v := r.Uint64() >> uint(1+r.Intn(62))
